@@ -55,6 +55,35 @@ class Unit:
         self.fns.append(w)
         return w
 
+    def inline_new_helpers(self, table):
+        """T15: a function or method of a woven file that is *called* from code under contract but has no contract
+        (it is not part of the extraction) is inlined at its call sites when that is mechanically possible;
+        otherwise the run is undecided.  Done once, after all contracts of the unit are woven."""
+        n = 0
+        roots = [part[1] for part in self.parts if part[0] == 'woven']
+        extracted = {}   # per source file: names that are part of the generated text (woven items, kept members, views under contract)
+        for w in roots:
+            names = extracted.setdefault(w.relpath, set())
+            names.add(w.item.name)
+            if w.item.kind in ('impl', 'trait'):
+                dropped = set(r.rule.split(':', 1)[1] for r in w.repls if r.rule.startswith('D-item:'))
+                names.update(m.name for m in w.members() if m.name not in dropped)
+        for v in self.fns:
+            extracted.setdefault(v.relpath, set()).add(v.item.name)
+        for w in roots:
+            src, ct = extract.load(self.repo, w.relpath)
+            top = [it for it in extract.parse_items(ct, 0, len(ct) - 1) if it.kind == 'fn' and it.name not in extracted[w.relpath]]
+            for it in top:
+                n += w.inline_calls(it, 'fn', table)
+            if w.item.kind == 'impl':
+                for m in w.members():
+                    if m.kind == 'fn' and m.name not in extracted[w.relpath]:
+                        n += w.inline_calls(m, 'method', table)
+        if n:
+            self.dropped.append('T15: %d call(s) of helper functions that have no contract were inlined at the call site '
+                                '(`{ let (params,) = (args,); let kv_ret: R = <helper body>; kv_ret }`)' % n)
+        return n
+
     # ---- assembling -----------------------------------------------------------------
     def assemble(self):
         head = ''.join('#![feature(%s)]\n' % f for f in self.features)
